@@ -4,6 +4,8 @@ import (
 	"fmt"
 	"go/types"
 	"strings"
+
+	"golang.org/x/tools/go/ssa"
 )
 
 // Further intrinsics (kept apart from external.go so additions do not
@@ -385,4 +387,25 @@ func init() {
 		}
 		return fromTerm(types.Typ[types.Int], res)
 	}
+}
+
+func init() {
+	// sync.Pool: no pooling - Get makes a fresh object, Put drops it (the
+	// stdlib implementation pins the goroutine to its P, which has no
+	// meaning in the interpreter)
+	externals["(*sync.Pool).Get"] = func(fr *frame, a []value) value {
+		p := a[0].(*value)
+		st := (*p).(structure)
+		// the New field is the last field of sync.Pool
+		newFn := st[len(st)-1]
+		switch f := newFn.(type) {
+		case *closure, *ssa.Function:
+			if fn, ok := f.(*ssa.Function); ok && fn == nil {
+				return iface{}
+			}
+			return call(fr.i, fr, fr.callpos, f, nil)
+		}
+		return iface{}
+	}
+	externals["(*sync.Pool).Put"] = func(fr *frame, a []value) value { return nil }
 }
